@@ -315,9 +315,13 @@ class Gen(object):
             return '%s %s %s' % (self.e_bool(depth + 1), op, self.e_bool(depth + 1))
         if k < 0.75:
             self.f('not')
+            if 'rtf' in self.vars.values() and r.random() < 0.3:
+                return 'not(' + self.var('rtf') + ')'
             return 'not(' + self.expr('any', depth + 1) + ')'
         if k < 0.83:
             self.f('boolean()')
+            if 'rtf' in self.vars.values() and r.random() < 0.3:
+                return 'boolean(' + self.var('rtf') + ')'
             return 'boolean(' + self.expr('any', depth + 1) + ')'
         if k < 0.92:
             fn = r.choice(['contains', 'starts-with'])
